@@ -1,9 +1,11 @@
 use crate::runner::Ctx;
 
+pub mod c01;
 pub mod c10;
 
 pub fn dispatch(ctx: &Ctx, replay: Option<&str>) -> i32 {
     match ctx.prop.as_str() {
+        "C01" => c01::run(ctx, replay),
         "C10" => c10::run(ctx, replay),
         _ => {
             eprintln!("no check for property {}", ctx.prop);
